@@ -83,9 +83,7 @@ structure Applied where
 /-- Merge applied owner references into the existing list: same uid ⇒ replaced in place,
 new uid ⇒ appended (ownerReferences is an associative list keyed by uid). -/
 def mergeOwners (cur applied : List ORef) : List ORef :=
-  let replaced := cur.map fun r => match applied.find? (fun a => a.uid = r.uid) with
-    | some a => a
-    | none => r
+  let replaced := cur.map fun r => (applied.find? (fun a => a.uid = r.uid)).getD r
   replaced ++ applied.filter (fun a => !(cur.any fun r => r.uid = a.uid))
 
 /-- Fields of the object after a write, server-owned metadata handled like the real API:
